@@ -57,6 +57,13 @@ fn main() {
             0
         })
         .unwrap();
-    let code = child.join().unwrap_or(3);
+    let code = match child.join() {
+        Ok(c) => c,
+        Err(e) => {
+            let msg = if let Some(s) = e.downcast_ref::<&str>() { s.to_string() } else if let Some(s) = e.downcast_ref::<String>() { s.clone() } else { "?".into() };
+            eprintln!("WORKLOAD-THREAD-PANIC: {}", msg);
+            3
+        }
+    };
     std::process::exit(code);
 }
